@@ -1,11 +1,11 @@
 #!/bin/bash
 # usage: seedsum.sh <prop> <n> [extra evalseed args]   (seed dir /tmp/seed-<prop>/<n>)
 p=$1; n=$2; shift 2
-python3 /verif/tools/evalseed.py /tmp/seed-$p/$n $p "$@" > /var/tmp/seedres/$p-$n.json 2>/var/tmp/seedres/$p-$n.err
+python3 /verif/tools/evalseed.py ${SEEDBASE:-/tmp/seed}-$p/$n $p "$@" > /var/tmp/seedres/${SEEDTAG:-r}$p-$n.json 2>/var/tmp/seedres/${SEEDTAG:-r}$p-$n.err
 python3 -c "
 import json
 try:
-    d=json.load(open('/var/tmp/seedres/$p-$n.json')); c=d['checks']
+    d=json.load(open('/var/tmp/seedres/${SEEDTAG:-r}$p-$n.json')); c=d['checks']
     print('$p/$n', 'suite:%s demoFailsWith:%s demoPassesWithout:%s'%(d.get('suite_passes_with_change'),d.get('demo_fails_with_change'),d.get('demo_passes_without_change')), 'DETECTED' if d['detected'] else 'MISSED', {q:(c[q]['rc'],c[q]['signatures'][:2]) for q in c})
 except Exception as e: print('$p/$n', 'ERROR', e)
 " | cut -c1-300
